@@ -169,6 +169,10 @@ impl<W, R, T> Runtime<W, R, T> {
         if let Some(max_size) = self.limits.size_limit {
             let size = value.byte_size();
             let mut stats = self.stats.borrow_mut();
+            if usize::from(stats.size + size) > max_size {
+                // the value is never constructed, so its bytes must not stay accounted
+                return Err(RuntimeViolation::AllocationLimitReached);
+            }
             stats.size += size;
             if VERBOSE_ALLOC {
                 println!(
@@ -176,11 +180,7 @@ impl<W, R, T> Runtime<W, R, T> {
                     stats.size
                 );
             }
-            if usize::from(stats.size) > max_size {
-                Err(RuntimeViolation::AllocationLimitReached)
-            } else {
-                Ok(size)
-            }
+            Ok(size)
         } else {
             Ok(0.into())
         }
